@@ -20,7 +20,7 @@ PROP = 'C17'
 # selftest: also prove determinism of the rarer modes (always pre-history, always fine yield points)
 SELFTEST_VARIANTS = {'sched': [dict(prehistory=8, fine=4), dict(extra_yield=12, extra_yield_kinds=[2, 3])]}
 
-TEMPLATES = ['wraps', 'wraps_annot', 'sigattr', 'fwd', 'meth', 'mod', 'deco', 'asforged', 'comb', 'instdep', 'chain', 'deep']
+TEMPLATES = ['wraps', 'wraps_annot', 'sigattr', 'fwd', 'meth', 'mod', 'deco', 'asforged', 'comb', 'instdep', 'chain', 'deep', 'siblings']
 
 ENTRIES = ['sigtools.signature', 'inspect.signature', 'sigtools.signature(auto=False)', 'signatures.signature']
 
